@@ -116,6 +116,9 @@ mod merge_unbounded;
 mod slot_map;
 mod try_buffered;
 mod try_join_all;
+#[cfg(futures_buffered_verif)]
+#[doc(hidden)]
+pub mod verif;
 
 pub use buffered::{BufferUnordered, BufferedOrdered, BufferedStreamExt};
 pub use futures_ordered::FuturesOrdered;
